@@ -307,6 +307,11 @@ func (c *Ctx) Load() error {
 				}
 				c.Inlined = append(c.Inlined, log...)
 			}
+			if dir := os.Getenv("VERIF_DUMP_INLINED"); dir != "" { // development aid: write the normalised sources there
+				for name, b := range overlay {
+					_ = os.WriteFile(filepath.Join(dir, strings.ReplaceAll(strings.TrimPrefix(name, c.Repo+"/"), "/", "__")), b, 0o644)
+				}
+			}
 			if len(overlay) > 0 {
 				cfg.Overlay = overlay
 				pkgs, err = packages.Load(cfg, "./...")
